@@ -146,6 +146,8 @@ def stepLine (_ : Unit) (line : String) : Unit × String :=
       let bits ← parseHexNat? b
       pure (showPF fmt [] (ofBits bits) (printfF b64A cfgNow fmt [] (ofBits bits) (decide (bits ≥ 2 ^ 63))))
     | ["consts"] => pure constsLine
+    -- the LONG_DOUBLE flavour of the engine is not modelled (the harness oracle judges it)
+    | ["pfx", _, _, _] => pure "ld"
     | ["pfd", b, w, p, m, we, sh] => do
       let bits ← parseHexNat? b
       let width ← w.toNat?
